@@ -1135,10 +1135,29 @@ pub fn print(sheet: &Sheet, style: u64) -> Printed {
                     Slot::Tight => {}
                     Slot::Sig => {
                         if loose {
+                            let before = out.len();
                             ws(&mut rng, &mut out);
                             if rng.chance(1, 6) {
-                                out.push_str("/* c */");
-                                ws(&mut rng, &mut out);
+                                // a comment next to the meaningful whitespace: before it, after it, on both sides,
+                                // or directly after the previous token (`.a/* c */ .b`) / before the next (`.a /* c */.b`)
+                                match rng.below(4) {
+                                    0 => {
+                                        out.push_str("/* c */");
+                                        ws(&mut rng, &mut out);
+                                    }
+                                    1 => {
+                                        out.truncate(before);
+                                        out.push_str("/* c */");
+                                        ws(&mut rng, &mut out);
+                                    }
+                                    2 => out.push_str("/* c */"),
+                                    _ => {
+                                        out.truncate(before);
+                                        out.push_str("/**/");
+                                        ws(&mut rng, &mut out);
+                                        out.push_str("/* c */");
+                                    }
+                                }
                             }
                         } else {
                             out.push(' ');
